@@ -5,7 +5,7 @@
 From Coq Require Import List Arith Sorted.
 Import ListNotations.
 Require MayV.Sync.ChanMpscModel MayV.Sync.ChanMpscInv MayV.Sync.ChanMpscThm MayV.Sync.ChanMpscAccept.
-Require MayV.Sync.ChanSpscModel MayV.Sync.ChanSpscInv MayV.Sync.ChanSpscThm.
+Require MayV.Sync.ChanSpscModel MayV.Sync.ChanSpscInv MayV.Sync.ChanSpscThm MayV.Sync.ChanSpscAccept.
 Require MayV.Sync.ChanMpmcModel MayV.Sync.ChanMpmcInv MayV.Sync.ChanMpmcThm.
 
 (* ======================================== mpsc ======================================== *)
@@ -56,7 +56,7 @@ End Mpsc.
 
 (* ======================================== spsc ======================================== *)
 Module Spsc.
-Import MayV.Sync.ChanSpscModel MayV.Sync.ChanSpscInv MayV.Sync.ChanSpscThm.
+Import MayV.Sync.ChanSpscModel MayV.Sync.ChanSpscInv MayV.Sync.ChanSpscThm MayV.Sync.ChanSpscAccept.
 
 Theorem C06_spsc_accounting : forall s, Reach true s -> sent s = rcvd s ++ drpd s ++ q s.
 Proof. exact spsc_accounting. Qed.
@@ -91,6 +91,11 @@ Theorem C06_spsc_quiescent_receiver_not_blocked_next_to_a_value : forall s, Reac
   (rp (R s) = RPark /\ ttok s = false) \/ (rp (R s) = RSusp /\ runq s = false) -> q s = [] /\ chans s <> 0.
 Proof. exact spsc_quiescent_not_stranded. Qed.
 Print Assumptions C06_spsc_quiescent_receiver_not_blocked_next_to_a_value.
+
+(* tie *)
+Theorem C06_spsc_accepted_traces_are_model_runs : forall tr sx, accept_all a_init tr = Some sx -> Reach true (fst sx).
+Proof. exact accepted_trace_reaches. Qed.
+Print Assumptions C06_spsc_accepted_traces_are_model_runs.
 
 Example C06_spsc_nonvacuous :
   let s := run true init [Recv false; RStep; RStep; RStep; RStep; RStep; Send; SStep; SStep] in
